@@ -182,6 +182,34 @@ Theorem C20_configured_modules_json : forall cfg, NoDup (map mc_name cfg) ->
 Proof. exact (fun cfg => configured_modules_json burrow_schema all_templates _ cfg C20_table_embed C20_table_json). Qed.
 Print Assumptions C20_configured_modules_json.
 
+(* The data a module hands to its templates.  Modelled: the module as a state machine over the notifications it is
+   handed (Tmpl.notify_step: Notify reads its extras map and leaves it alone; cluster and group come from the reply, id and
+   start from the group's incident).  Whatever was notified before, the record carries exactly the configured extras and
+   that notification's values.  Tied to the real HTTPNotifier.Notify / EmailNotifier.Notify behind the real
+   checkAndSendResponseToModules by the "seq" cases of the probe. *)
+Theorem C20_module_data_offers_configured : forall (R : Type) extras sent (l : list (notification R)),
+  run_notifications (mkMstate extras sent) l = map (notify_data extras) l.
+Proof. exact (@module_data_offers_configured). Qed.
+Print Assumptions C20_module_data_offers_configured.
+
+Theorem C20_module_data_fields : forall (R : Type) extras sent (l : list (notification R)) k n d,
+  nth_error l k = Some n -> nth_error (run_notifications (mkMstate extras sent) l) k = Some d ->
+  td_cluster d = nt_cluster n /\ td_group d = nt_group n /\ td_id d = inc_id (nt_incident n) /\
+  td_start d = inc_start (nt_incident n) /\ td_extras d = extras /\ td_result d = nt_status n.
+Proof. exact (@module_data_fields). Qed.
+Print Assumptions C20_module_data_fields.
+
+(* ... and every notification of a sequence renders through the configured module on that record *)
+Theorem C20_notified_module_renders : forall cfg, NoDup (map mc_name cfg) ->
+  forall m good, In m cfg -> (good = true -> mc_send_close m = true) -> assoc (mc_file m good) all_templates <> None ->
+  forall extras sent (l : list (notification Eval.gstatus)) nm k n d,
+    Forall (fun n => evaluator_reply (nt_status n)) l ->
+    nth_error l k = Some n -> nth_error (run_notifications (mkMstate extras sent) l) k = Some d ->
+    d = notify_data extras n /\
+    exists out, module_renders burrow_schema all_templates cfg (mc_name m) good (tdata_value burrow_schema nm d) = Ok out.
+Proof. exact (fun cfg => notified_module_renders burrow_schema all_templates cfg C20_table_embed C20_table_all_render). Qed.
+Print Assumptions C20_notified_module_renders.
+
 (* ------------------------------------------------------------------------------------------------------------ *)
 (* Non-vacuity                                                                                                   *)
 (* ------------------------------------------------------------------------------------------------------------ *)
@@ -274,12 +302,14 @@ Example C20_ex_helpers :
   typecheck burrow_schema [NAction [CCall "add" [AField ["Result"; "TotalLag"]; AInt 1]]] burrow_facts = false /\
   match Eval.eval_group [] F32.f32_zero 0 3, Eval.eval_group [(1%Z, [ex_stalled])] F32.f32_zero 0 3 with
   | Eval.Ok g0, Eval.Ok g1 =>
-      (exists out, exec burrow_schema t (data_of burrow_schema ex_nm "c" "g" "i" [] (Eval.filter_view g0)) = Ok out /\ pieces_valid out = true) /\
-      (exists out, exec burrow_schema t (data_of burrow_schema ex_nm "c" "g" "i" [] (Eval.filter_view g1)) = Ok out /\ pieces_valid out = true) /\
+      match exec burrow_schema t (data_of burrow_schema ex_nm "c" "g" "i" [] (Eval.filter_view g0)) with
+      | Ok out => pieces_valid out | Err _ => false end = true /\
+      match exec burrow_schema t (data_of burrow_schema ex_nm "c" "g" "i" [] (Eval.filter_view g1)) with
+      | Ok out => pieces_valid out | Err _ => false end = true /\
       exec burrow_schema bad_div (data_of burrow_schema ex_nm "c" "g" "i" [] (Eval.filter_view g0)) = Err "integer divide by zero"
   | _, _ => False
   end.
-Proof. vm_compute. repeat split; eexists; split; reflexivity. Qed.
+Proof. vm_compute. repeat split. Qed.
 
 (* two modules sharing files: each renders its own open and close template *)
 Example C20_ex_configured_modules :
